@@ -92,6 +92,27 @@ pub fn cases(ctx: &Ctx) -> Vec<WCase> {
         s.settle_ms = 2000;
         out.push(wcase(format!("deathcatchup-{i}"), s));
     }
+    // a LIVE remote dropped by the host's application, with input delay and/or running ahead of the host, so that its last
+    // frames are forwarded to the spectator only AFTER it was marked as dropped
+    for i in 0..ctx.n(1500, 60_000) {
+        let mut rr = r.fork(0x2900_0000 + i as u64);
+        let mut s = gen_death2(&mut rr, 500);
+        s.kill = None;
+        s.notify_ms = 20_000;
+        s.timeout_ms = 30_000;
+        s.delay = rr.below(4) as usize;
+        let h = s.peers[1][0];
+        s.actions.push(Action { node: 0, when: Trigger::AtMs(rr.range(1500, 3500)), act: Act::Disconnect { h } });
+        let mut fast = NodeCfg::default();
+        fast.skew = rr.pick(&[0.0, -0.05, -0.1]);
+        s.nodes = vec![NodeCfg::default(), fast];
+        let mut sp = SpecCfg::new(0);
+        sp.catchup = rr.pick(&[1usize, 2, 5]);
+        sp.max_behind = rr.pick(&[1usize, 5, 10]);
+        s.specs.push(sp);
+        s.settle_ms = 1500;
+        out.push(wcase(format!("apidrop-{i}"), s));
+    }
     // differential: the same scenario with and without spectators
     for i in 0..ctx.n(2000, 80_000) {
         let mut rr = r.fork(0x3000_0000 + i as u64);
